@@ -8,30 +8,59 @@
 
        pres R m  :=  forall s s' r, m s = (s', r) -> R s s'.
 
+   Generic rules: pres_ret, pres_fail, pres_get, pres_bind, pres_mapM, pres_iterM, pres_modify,
+   pres_at_get_bind / pres_at_put (for the `s <- get ;; ... put (f s)` idiom), bind_inv.
+
    For every function f of the interpreter model there is a lemma `pres_f` whose premises are exactly
-   the elementary state changes f can perform (the "footprint" of f):
+   the elementary state changes f can perform (the "footprint" of f); after the section is closed
+   each lemma quantifies only over the premises it needs:
 
-       R_obs     pushing a non-meta observation on the trace          (observe)
-       R_meta    raising an inner meta event (listeners + trace)      (raise_meta; inner_meta m = true)
-       R_meta_o  raising step started / step ended / event consumed   (execute_once only)
-       R_ctx     replacing i_ctx                                      (run_code)
-       R_old     replacing i_old                                      (contract, CPre only)
-       R_init    replacing i_initialized                              (compute_steps)
+       R_obs       pushing a non-meta observation on the trace        (observe)
+       R_meta      raising an inner meta event (listeners + trace)    (raise_meta; inner_meta m = true)
+       R_ctx       replacing i_ctx                                    (run_code)
+       R_old       replacing i_old                                    (contract, CPre only)
+       R_init      replacing i_initialized                            (compute_steps)
        R_memory, R_config, R_entry, R_idle, R_sent                    (record_history, exit_state, ...)
-       R_queue   queue_event i e  with e_kind e = Internal            (raise_event)
-       R_pop_i / R_pop_e   removing the head of a queue               (consume_event)
-       R_start   fun i => set_sent [] (set_time now i)                (first modify of execute_once)
+       R_queue     queue_event i e  with e_kind e = Internal          (raise_event)
+       R_pop_i / R_pop_e   removing the due head of a queue           (consume_event)
+       R_meta_started / R_meta_consumed / R_meta_ended                (execute_once itself)
+       R_start     fun i => set_sent [] (set_time now i)              (first modify of execute_once)
 
-   So the premises of `pres_f` tell which fields f may change, and nothing else is changed.
-   Relations on the interpreter state alone are lifted with `lift`; `lift_obs`/`lift_meta` discharge
-   R_obs/R_meta/R_meta_o for them.  Ready-made instances (end of the file):
+     function                              premises besides R_refl, R_trans
+     raise_meta (inner)                    R_meta
+     run_code                              R_obs R_ctx
+     eval_cond eval_conds eval_guards sel_* select_transitions     R_obs
+     contract (CPost/CInv: pres_contract_nopre)                    R_obs
+     contract state_contract trans_contract                        R_obs R_old
+     sort_transitions                      (none)
+     compute_steps                         R_obs R_init
+     record_history                        R_memory
+     exit_state                            R_obs R_meta R_ctx R_memory R_config
+     enter_state                           R_obs R_meta R_ctx R_old R_config R_entry R_idle
+     process_transition                    R_obs R_meta R_ctx R_old R_idle
+     check_invariants                      R_obs
+     raise_event                           R_meta R_queue
+     apply_step stabilize run_steps        all of the above + R_sent
+     consume_event                         R_pop_i R_pop_e
+     execute_once_tail                     all of the above + R_meta_started/consumed/ended
+     execute_once                          + R_start
 
-       same_queues   i_iq, i_eq, i_time unchanged       -- everything below raise_event
-       same_time     i_time unchanged                   -- everything except the first modify of
-                                                           execute_once (execute_once_tail_time)
-       qins l        internal queue := ins_all time (internals l) (internal queue), rest of
-                     same_queues; indexed by the list of sent events      (raise_event ... run_steps)
+   Bundles: `mframe R` (everything up to R_sent), `msend_frame R` (R_queue), `mpop_frame R`,
+   `mouter_frame R`, with lemmas mf_f; conjunction `rconj` (mframe_conj); relations on the trace
+   alone `liftT` (mframe_trace); relations on the interpreter state alone `lift` with
+   `code_frame Ri`, `send_frame Ri`, `pop_frame Ri` and lemmas cf_f.
+
+   Ready-made instances:
+       same_queues   i_iq, i_eq, i_time unchanged       -- a code_frame: everything below raise_event
+       same_time     i_time unchanged                   -- code/send/pop frame: everything except the
+                                                           first modify of execute_once
+                                                           (execute_once_tail_time, execute_once_time)
+       qins l        internal queue := ins_all time (internals l) (internal queue), rest as
+                     same_queues; indexed by the list of events sent (raise_event_qins,
+                     raise_all_qins, apply_step_qins, stabilize_qins, run_steps_qins: the index
+                     is ms_sent of the returned micro steps; on error: qevol)
        qevol         exists l, qins l                   -- reflexive transitive "queue evolution"
+   Explicit footprints (…_footprint): only_trace, upd_by set_ctx / set_old / set_initialized.
 *)
 From Coq Require Import List ZArith Lia Bool.
 From Sismic Require Import Base Chart Interp.
@@ -755,8 +784,20 @@ Section Frame.
 
   Lemma mframe_conj (R1 R2 : mst -> mst -> Prop) : mframe R1 -> mframe R2 -> mframe (rconj R1 R2).
   Proof.
-    intros F1 F2. unfold rconj. constructor; intros; try (split; [apply F1|apply F2]; assumption).
-    destruct H, H0. split; [eapply (mf_trans _ F1)|eapply (mf_trans _ F2)]; eauto.
+    intros F1 F2. unfold rconj. constructor.
+    - intros s. split; [apply F1|apply F2].
+    - intros a b c [A1 A2] [B1 B2].
+      split; [eapply (mf_trans _ F1)|eapply (mf_trans _ F2)]; eauto.
+    - intros s o Ho. split; [apply F1|apply F2]; exact Ho.
+    - intros s m Hm. split; [apply F1|apply F2]; exact Hm.
+    - intros s c. split; [apply F1|apply F2].
+    - intros s o. split; [apply F1|apply F2].
+    - intros s b. split; [apply F1|apply F2].
+    - intros s m. split; [apply F1|apply F2].
+    - intros s c. split; [apply F1|apply F2].
+    - intros s e. split; [apply F1|apply F2].
+    - intros s e. split; [apply F1|apply F2].
+    - intros s l. split; [apply F1|apply F2].
   Qed.
 
   Lemma msend_conj (R1 R2 : mst -> mst -> Prop) : msend_frame R1 -> msend_frame R2 -> msend_frame (rconj R1 R2).
@@ -875,15 +916,18 @@ Section Frame.
 
   Lemma same_queues_frame : code_frame same_queues.
   Proof.
-    unfold same_queues. constructor; intros; simpl; auto.
-    repeat split; etransitivity; try apply H0; apply H.
+    unfold same_queues. constructor; try (intros; simpl; auto; fail).
+    intros a b c (A1 & A2 & A3) (B1 & B2 & B3). repeat split; congruence.
   Qed.
 
   (* --- the time is untouched (by everything except the first modify of execute_once) --- *)
   Definition same_time (i i' : ist) : Prop := i_time i' = i_time i.
 
   Lemma same_time_frame : code_frame same_time.
-  Proof. unfold same_time. constructor; intros; simpl; auto. congruence. Qed.
+  Proof.
+    unfold same_time. constructor; try (intros; simpl; auto; fail).
+    intros a b c A B. congruence.
+  Qed.
 
   Lemma same_time_send : send_frame same_time.
   Proof. intros i e K. unfold same_time, queue_event. destruct (e_kind e); reflexivity. Qed.
@@ -1129,4 +1173,104 @@ Section Frame.
                 eapply qins_app; eauto.
              ++ rewrite A1. rewrite (macro_event_app_none _ _ F2), M3. reflexivity.
   Qed.
+
+  (* ============================================================ explicit footprints *)
+  (* The statements "f changes only ..." spelled out for the functions that do not touch the
+     queues.  `upd_by set` : the interpreter state changed at most in the field written by `set`,
+     the listeners' state m_x is untouched (the trace may have grown). *)
+  Definition only_trace (s s' : mst) : Prop := m_i s' = m_i s /\ m_x s' = m_x s.
+
+  Definition upd_by {T} (set : T -> ist -> ist) (s s' : mst) : Prop :=
+    (exists x, m_i s' = set x (m_i s)) /\ m_x s' = m_x s.
+
+  Lemma only_trace_refl s : only_trace s s.
+  Proof. split; reflexivity. Qed.
+  Lemma only_trace_trans a b c : only_trace a b -> only_trace b c -> only_trace a c.
+  Proof. intros [A1 A2] [B1 B2]. split; congruence. Qed.
+  Lemma only_trace_obs s o : is_meta_obs o = false -> only_trace s (fst (observe o s)).
+  Proof. intros _. split; reflexivity. Qed.
+
+  Lemma upd_by_trans {T} (set : T -> ist -> ist) :
+    (forall x y i, set x (set y i) = set x i) ->
+    forall a b c, upd_by set a b -> upd_by set b c -> upd_by set a c.
+  Proof.
+    intros Hss a b c [(x & A1) A2] [(y & B1) B2]. split; [|congruence].
+    exists y. rewrite B1, A1. apply Hss.
+  Qed.
+
+  (* eval_cond / eval_conds / select_transitions / check_invariants: nothing but the trace *)
+  Lemma eval_cond_footprint k o idx cd ev s s' r :
+    eval_cond k o idx cd ev s = (s', r) -> only_trace s s'.
+  Proof.
+    apply (pres_eval_cond only_trace only_trace_refl only_trace_trans only_trace_obs).
+  Qed.
+
+  Lemma eval_conds_footprint k o idx cds ev s s' r :
+    eval_conds k o idx cds ev s = (s', r) -> only_trace s s'.
+  Proof.
+    apply (pres_eval_conds only_trace only_trace_refl only_trace_trans only_trace_obs).
+  Qed.
+
+  Lemma select_transitions_footprint event states s s' r :
+    select_transitions event states s = (s', r) -> only_trace s s'.
+  Proof.
+    apply (pres_select_transitions only_trace only_trace_refl only_trace_trans only_trace_obs).
+  Qed.
+
+  Lemma check_invariants_footprint ev s s' r :
+    check_invariants ev s = (s', r) -> only_trace s s'.
+  Proof.
+    apply (pres_check_invariants only_trace only_trace_refl only_trace_trans only_trace_obs).
+  Qed.
+
+  (* sort_transitions: nothing at all *)
+  Lemma sort_transitions_footprint ts s s' r : sort_transitions ts s = (s', r) -> s' = s.
+  Proof.
+    apply (pres_sort_transitions (fun s s' => s' = s)). reflexivity.
+  Qed.
+
+  (* raise_meta: only the listeners' state and the trace (see also raise_meta_inv) *)
+  Lemma raise_meta_footprint m s s' r : raise_meta m s = (s', r) -> m_i s' = m_i s.
+  Proof. intros H. apply raise_meta_inv in H. tauto. Qed.
+
+  (* run_code: trace + i_ctx *)
+  Lemma run_code_footprint k o cd ev s s' r :
+    run_code k o cd ev s = (s', r) -> upd_by set_ctx s s'.
+  Proof.
+    apply (pres_run_code (upd_by set_ctx)).
+    - apply upd_by_trans. reflexivity.
+    - intros s0 ob _. split; [|reflexivity]. exists (i_ctx (m_i s0)). simpl.
+      destruct (m_i s0); reflexivity.
+    - intros s0 c. split; [|reflexivity]. exists c. reflexivity.
+  Qed.
+
+  (* contract: trace + i_old *)
+  Lemma contract_footprint k o pre post inv ev s s' r :
+    contract k o pre post inv ev s = (s', r) -> upd_by set_old s s'.
+  Proof.
+    apply (pres_contract (upd_by set_old)).
+    - intros s0. split; [|reflexivity]. exists (i_old (m_i s0)). destruct (m_i s0); reflexivity.
+    - apply upd_by_trans. reflexivity.
+    - intros s0 ob _. split; [|reflexivity]. exists (i_old (m_i s0)). simpl.
+      destruct (m_i s0); reflexivity.
+    - intros s0 c. split; [|reflexivity]. exists c. reflexivity.
+  Qed.
+
+  (* compute_steps: trace + i_initialized *)
+  Lemma compute_steps_footprint s s' r :
+    compute_steps s = (s', r) -> upd_by set_initialized s s'.
+  Proof.
+    apply (pres_compute_steps (upd_by set_initialized)).
+    - intros s0. split; [|reflexivity]. exists (i_initialized (m_i s0)).
+      destruct (m_i s0); reflexivity.
+    - apply upd_by_trans. reflexivity.
+    - intros s0 ob _. split; [|reflexivity]. exists (i_initialized (m_i s0)). simpl.
+      destruct (m_i s0); reflexivity.
+    - intros s0 c. split; [|reflexivity]. exists c. reflexivity.
+  Qed.
 End Frame.
+
+Print Assumptions pres_execute_once.
+Print Assumptions run_steps_qins.
+Print Assumptions execute_once_time.
+Print Assumptions compute_steps_footprint.
